@@ -398,15 +398,30 @@ def ast_literal(v):
             return ord(v["v"])
         if v.get("t") == "bool":
             return 1 if v["v"] in (True, "true") else 0
+        if v.get("t") == "bytestr":
+            bs = v.get("v")
+            if isinstance(bs, list):
+                return ("list", tuple(int(x) for x in bs))
+            if isinstance(bs, str):
+                return ("list", tuple(bs.encode("latin-1")))
         return None
+    if k == "Path" and "::" in (v.get("path") or "") and v["path"].split("::")[-1][:1].isupper():
+        # a unit variant of an enum (`Vehicle::Xfg`): carried as a value of its own
+        return ("enumv", v["path"].split("::")[-2] if v["path"].count("::") >= 1 else "", v["path"].split("::")[-1])
     if k == "Tuple":
         els = [ast_literal(e) for e in v["elems"]]
         return None if any(e is None for e in els) else ("tup", tuple(els))
     if k == "Array":
         els = [ast_literal(e) for e in v["elems"]]
         return None if any(e is None for e in els) else ("list", tuple(els))
-    if k == "Ref":
+    if k == "Ref" or (k == "Unary" and v.get("op") == "*"):
         return ast_literal(v["e"])
+    if k == "Lit" and v.get("t") == "bytestr":
+        bs = v.get("v")
+        if isinstance(bs, list):
+            return ("list", tuple(int(x) for x in bs))
+        if isinstance(bs, str):
+            return ("list", tuple(bs.encode("latin-1")))
     return None
 
 
@@ -504,7 +519,7 @@ class Model:
                             iv = None
                         if iv is not None:
                             return iv
-        if o[0] == "const" and o[1] is None and isinstance(o[2], str) and "::" in o[2] and str(o[3]).lstrip("&").startswith("[") and "[u8" not in str(o[3]):
+        if o[0] == "const" and o[1] is None and isinstance(o[2], str) and "::" in o[2] and str(o[3]).lstrip("&").startswith("[") and not str(o[3]).lstrip("&").startswith("[u8"):
             # a named constant array of scalars / tuples of scalars: from the AST
             cs = self.ctx.ast.const(o[2].split("::")[-1])
             if len(cs) == 1:
@@ -519,6 +534,8 @@ class Model:
                     return ("list", tuple(int(e["v"]) for e in v["elems"]))
                 if v.get("k") == "Repeat" or v.get("repeat"):
                     pass
+        if o[0] == "discr" and o[1][0] == "call" and (o[1][1] or "").endswith("BinRead::read_options") and not (self.local_prefix and (o[1][2] or "").startswith(self.local_prefix)):
+            return 0          # `read(..).map(|bytes| ..)`: the read of the bytes succeeded (Ok)
         # the I/O that produced the bytes is assumed to have succeeded (its failure is returned by `?` before any byte is looked at)
         if o[0] == "discr" and o[1][0] == "call" and (o[1][1] or "").endswith("Try::branch"):
             inner = o[1][3][0] if o[1][3] else None
@@ -632,7 +649,7 @@ class Model:
                 elif r:
                     return ("opt", True, x if d.endswith("find") else i)
             return ("opt", False, None)
-        if re.search(r"cmp::PartialEq::(eq|ne)$", d) and len(args) == 2:
+        if (re.search(r"cmp::PartialEq::(eq|ne)$", d) or ("PartialEq" in d and d.endswith(("::eq", "::ne")))) and len(args) == 2:
             a, b = ev.ev(args[0]), ev.ev(args[1])
             return 1 if (a == b) == d.endswith("eq") else 0
         if re.search(r"<impl u32>::from_le_bytes$", d):
